@@ -92,11 +92,50 @@ def _make_kwonly(reason):
     return KwOnlyExc(reason=reason)
 
 
+class StatusError(Exception):
+    """Validating constructor: a non-numeric argument raises ValueError (not TypeError)."""
+
+    def __init__(self, status):
+        self.status = int(status)
+        super().__init__(status)
+
+
+class CodeError(Exception):
+    """Constructor looks its argument up: an unknown code raises KeyError."""
+
+    CODES = {'E1': 'first', 'E2': 'second'}
+
+    def __init__(self, code):
+        self.text = self.CODES[code]
+        super().__init__(code)
+
+
+class RespError(Exception):
+    """Constructor reads attributes of its argument: a str raises AttributeError."""
+
+    def __init__(self, resp):
+        self.resp = resp
+        super().__init__(resp.status, resp.reason)
+
+    def __reduce__(self):
+        return (RespError, (self.resp,))
+
+
+class Resp:
+    def __init__(self, status, reason):
+        self.status, self.reason = status, reason
+
+
+def _make_resp_error(status, reason):
+    return RespError(Resp(status, reason))
+
+
 EXC_TABLE = {
     'ValueError': ValueError, 'KeyError': KeyError, 'Boom': Boom, 'Boom2': Boom2, 'OSError': OSError, 'ReduceExc': ReduceExc,
     'KwOnlyExc': KwOnlyExc, 'AssertionError': AssertionError, 'KeyboardInterrupt': KeyboardInterrupt, 'ZeroDivisionError': ZeroDivisionError,
     'UnicodeDecodeError': UnicodeDecodeError, 'FileNotFoundError': FileNotFoundError, 'RuntimeError': RuntimeError, 'StopIteration': StopIteration,
     'Reject': Reject, 'LookupError': LookupError, 'TimeoutError': TimeoutError, 'ConnectionResetError': ConnectionResetError,
+    'StatusError': StatusError, 'CodeError': CodeError, 'RespError': _make_resp_error,
 }
 
 
@@ -180,6 +219,52 @@ def c20_target(spec):
     if ending == 'exit':
         sys.exit(3)
     return ('done', n)
+
+
+def c20_parent_main(argv=None):
+    """A whole parent program, run as `python -m vlib.targets c20-parent <json>`: installs a (slow) root handler that appends every record
+    to a file, starts one logging child through mpservice's Process, waits for it with the given accessor and *ends at once*."""
+    import json
+    import logging
+    import sys
+
+    cfg = json.loads((argv or sys.argv)[2])
+    out = open(cfg['out'], 'a', buffering=1)
+
+    class H(logging.Handler):
+        def emit(self, record):
+            if cfg.get('handler_delay'):
+                time.sleep(cfg['handler_delay'])
+            out.write(f'{record.name} {record.getMessage()[:40]}\n')
+            out.flush()
+
+    root = logging.getLogger()
+    root.addHandler(H())
+    root.setLevel(logging.DEBUG)
+    import mpservice.multiprocessing as mm
+
+    p = mm.Process(target=c20_target, args=(cfg['spec'],), daemon=cfg.get('daemon', False))
+    p.start()
+    try:
+        if cfg['accessor'] == 'join':
+            p.join()
+        elif cfg['accessor'] == 'result':
+            p.result()
+        elif cfg['accessor'] == 'result-timeout':
+            p.result(timeout=100)
+        elif cfg['accessor'] == 'exception':
+            p.exception()
+        elif cfg['accessor'] == 'wait':
+            import mpservice.multiprocessing as mm2
+
+            mm2.wait([p])
+            p.join()
+    except BaseException as e:  # noqa: BLE001
+        out.write(f'OUTCOME exc {type(e).__name__}\n')
+    else:
+        out.write('OUTCOME ok\n')
+    out.flush()
+    # the program ends here
 
 
 # ----------------------------------------------------------------------------- C18 targets
@@ -293,3 +378,10 @@ def make_payload(spec):
     if kind == 'str':
         return 'é' * spec[1]
     raise ValueError(kind)
+
+
+if __name__ == '__main__':
+    import sys as _sys
+
+    if len(_sys.argv) > 1 and _sys.argv[1] == 'c20-parent':
+        c20_parent_main()
